@@ -108,3 +108,189 @@ Theorem C11_lists_pure_satisfiable :
 Proof. exact ex_lists_pure. Qed.
 Print Assumptions C11_lists_pure_satisfiable.
 
+
+(* ---- the remaining clauses (Proofs/CompareRest*.v), for valid duplicate-free operands:
+   the three reported sets are pairwise disjoint; the comparison reports "same" exactly when
+   the operands are equal up to the order of set and keyed-list members (veq_assoc) -- the
+   "if" half needs scalar key fields: with a key field that is itself a set, two members
+   whose keys differ only in member order are equal up to order and yet reported as removed
+   and added (refutation); comparing nothing with an object reports every node of the object
+   as added and nothing else. ---- *)
+From Coq Require Import List ZArith String Bool Arith Lia.
+From SMD Require Import Model.Value Model.Order Model.PathElem Model.PathSet Model.Schema Model.Walk
+  Model.Validate Model.Merge Model.FieldSet Model.Compare
+  Spec.PathsAsSets Spec.RefValid Spec.Resolve Spec.Agree Spec.RefDiff Spec.Examples
+  Proofs.OrderLaws Proofs.PathSetLaws Proofs.ValidateLaws Proofs.SchemaOk Proofs.MergeBase
+  Proofs.FieldSetPaths Proofs.ResolveLaws Proofs.CompareLaws
+  Proofs.RefDiffBoth Proofs.RefDiffLaws Proofs.RefDiffPresent Proofs.RefDiffChar
+  Proofs.RemoveFrame Proofs.KeyFields Proofs.SameLeaves
+  Proofs.CompareRestMod Proofs.CompareRestCanon.
+From SMD Require Proofs.UpdaterLaws Proofs.NodeSet Proofs.ReconcileBase Proofs.FieldSetBase.
+From SMD Require Import Proofs.CompareRest.
+Theorem C11_three_sets_disjoint :
+  forall (s : schema) (R : typeref -> Prop) (tr : typeref) (l r : value) 
+           (c : comparison3) (p : path),
+         schema_ok s R ->
+         family_refs s R ->
+         lists_pure s R ->
+         R tr ->
+         wf_value l = true ->
+         wf_value r = true ->
+         conforms s tr false l = true ->
+         conforms s tr false r = true ->
+         compare s tr l r = Some c ->
+         wf_path p = true ->
+         p <> nil ->
+         (ps_has p (removed c) = true ->
+          ps_has p (modified c) = false /\ ps_has p (added c) = false) /\
+         (ps_has p (modified c) = true -> ps_has p (added c) = false).
+Proof. exact compare_disjoint. Qed.
+Print Assumptions C11_three_sets_disjoint.
+
+Theorem C11_same_iff_equal_up_to_member_order :
+  forall (s : schema) (R : typeref -> Prop) (tr : typeref) (l r : value) (c : comparison3),
+         schema_ok s R ->
+         family_refs s R ->
+         lists_pure s R ->
+         keys_scalar s R ->
+         R tr ->
+         wf_value l = true ->
+         wf_value r = true ->
+         conforms s tr false l = true ->
+         conforms s tr false r = true ->
+         match kind_of s tr l with
+         | KMap _ _ | KList _ _ =>
+             match kind_of s tr r with
+             | KMap _ _ | KList _ _ => True
+             | _ => False
+             end
+         | _ => False
+         end -> compare s tr l r = Some c -> c3_is_same c = true <-> veq_assoc s tr l r = true.
+Proof. exact compare_same_iff_equal. Qed.
+Print Assumptions C11_same_iff_equal_up_to_member_order.
+
+Theorem C11_same_implies_equal :
+  forall (s : schema) (R : typeref -> Prop),
+         schema_ok s R ->
+         family_refs s R ->
+         lists_pure s R ->
+         forall (tr : typeref) (l r : value) (c : comparison3),
+         R tr ->
+         wf_value l = true ->
+         wf_value r = true ->
+         conforms s tr false l = true ->
+         conforms s tr false r = true ->
+         granular s tr l ->
+         granular s tr r ->
+         compare s tr l r = Some c -> c3_is_same c = true -> veq_assoc s tr l r = true.
+Proof. exact compare_same_implies_equal. Qed.
+Print Assumptions C11_same_implies_equal.
+
+Theorem C11_same_iff_equal_needs_scalar_keys :
+  ~
+         (forall (s : schema) (R : typeref -> Prop) (tr : typeref) (l r : value)
+            (c : comparison3),
+          schema_ok s R ->
+          family_refs s R ->
+          lists_pure s R ->
+          R tr ->
+          wf_value l = true ->
+          wf_value r = true ->
+          conforms s tr false l = true ->
+          conforms s tr false r = true ->
+          match kind_of s tr l with
+          | KMap _ _ | KList _ _ =>
+              match kind_of s tr r with
+              | KMap _ _ | KList _ _ => True
+              | _ => False
+              end
+          | _ => False
+          end -> compare s tr l r = Some c -> c3_is_same c = true <-> veq_assoc s tr l r = true).
+Proof. exact compare_same_iff_equal_literal_refuted. Qed.
+Print Assumptions C11_same_iff_equal_needs_scalar_keys.
+
+Theorem C11_from_nothing_everything_is_added :
+  forall (s : schema) (R : typeref -> Prop) (tr : typeref) (x : value) 
+           (c : comparison3) (p : path),
+         schema_ok s R ->
+         family_refs s R ->
+         lists_pure s R ->
+         R tr ->
+         wf_value x = true ->
+         conforms s tr true x = true ->
+         compare s tr VNull x = Some c ->
+         wf_path p = true ->
+         p <> nil ->
+         ps_has p (removed c) = false /\
+         ps_has p (modified c) = false /\ (ps_has p (added c) = true <-> present s tr x p = true).
+Proof. exact compare_from_nothing. Qed.
+Print Assumptions C11_from_nothing_everything_is_added.
+
+Theorem C11_rest_hypotheses_satisfiable :
+  wf_value nv_l = true /\
+         wf_value nv_r = true /\
+         wf_value nv_r' = true /\
+         conforms ex_schema ex_rt false nv_l = true /\
+         conforms ex_schema ex_rt false nv_r = true /\
+         conforms ex_schema ex_rt false nv_r' = true /\
+         match kind_of ex_schema ex_rt nv_l with
+         | KMap _ _ =>
+             match kind_of ex_schema ex_rt nv_r with
+             | KMap _ _ =>
+                 match kind_of ex_schema ex_rt nv_r' with
+                 | KMap _ _ => True
+                 | _ => False
+                 end
+             | _ => False
+             end
+         | _ => False
+         end.
+Proof. exact nv_hyps. Qed.
+Print Assumptions C11_rest_hypotheses_satisfiable.
+
+Theorem C11_rest_example_differs :
+  show (compare ex_schema ex_rt nv_l nv_r) =
+         Some
+           (false, nil,
+            (PEField "items" :: PEKey (("name", VStr "b") :: nil) :: PEField "vv" :: nil) :: nil,
+            nil).
+Proof. exact nv_compare. Qed.
+Print Assumptions C11_rest_example_differs.
+
+Theorem C11_rest_example_reordered :
+  veq_assoc ex_schema ex_rt nv_l nv_r' = true /\ veqb nv_l nv_r' = false.
+Proof. exact nv_equal'. Qed.
+Print Assumptions C11_rest_example_reordered.
+
+Theorem C11_rest_example_from_nothing :
+  show (compare ex_schema ex_rt VNull nv_r) =
+         Some
+           (false, nil, nil,
+            (PEField "aa" :: nil)
+            :: (PEField "items" :: nil)
+               :: (PEField "items" :: PEKey (("name", VStr "a") :: nil) :: nil)
+                  :: (PEField "items" :: PEKey (("name", VStr "b") :: nil) :: nil)
+                     :: (PEField "items"
+                         :: PEKey (("name", VStr "a") :: nil) :: PEField "name" :: nil)
+                        :: (PEField "items"
+                            :: PEKey (("name", VStr "a") :: nil) :: PEField "vv" :: nil)
+                           :: (PEField "items"
+                               :: PEKey (("name", VStr "b") :: nil) :: PEField "name" :: nil)
+                              :: (PEField "items"
+                                  :: PEKey (("name", VStr "b") :: nil) :: PEField "vv" :: nil)
+                                 :: nil) /\
+         map fst (nodes ex_schema ex_rt nv_r) =
+         (PEField "aa" :: nil)
+         :: (PEField "items" :: nil)
+            :: (PEField "items" :: PEKey (("name", VStr "b") :: nil) :: nil)
+               :: (PEField "items" :: PEKey (("name", VStr "b") :: nil) :: PEField "name" :: nil)
+                  :: (PEField "items" :: PEKey (("name", VStr "b") :: nil) :: PEField "vv" :: nil)
+                     :: (PEField "items" :: PEKey (("name", VStr "a") :: nil) :: nil)
+                        :: (PEField "items"
+                            :: PEKey (("name", VStr "a") :: nil) :: PEField "name" :: nil)
+                           :: (PEField "items"
+                               :: PEKey (("name", VStr "a") :: nil) :: PEField "vv" :: nil)
+                              :: nil.
+Proof. exact nv_from_nothing. Qed.
+Print Assumptions C11_rest_example_from_nothing.
+
